@@ -108,6 +108,7 @@ func (server *Server) Start() error {
 	if err != nil {
 		return err
 	}
+	verifPoint("start.opened")
 
 	epoch := server.ConnManager.currentEpoch()
 
@@ -129,10 +130,12 @@ func (server *Server) Stop() error {
 	if err := server.close(); err != nil {
 		return err
 	}
+	verifPoint("stop.mid")
 
 	if err := server.ConnManager.Stop(); err != nil {
 		return err
 	}
+	verifPoint("stop.swept")
 
 	if server.IsPortEnabled() {
 		addr := net.JoinHostPort(server.Addr, strconv.Itoa(server.ConfigPort()))
@@ -216,10 +219,12 @@ func (server *Server) serve(l net.Listener, epoch int) error {
 	// The accept loop owns the listener it was started with: when it ends it
 	// must not close the listeners a later Start has opened.
 	defer l.Close()
+	verifPoint("serve.enter")
 
 	for {
 		conn, err := l.Accept()
 		if err != nil {
+			verifPoint("serve.accept-error")
 			return err
 		}
 
@@ -230,10 +235,12 @@ func (server *Server) serve(l net.Listener, epoch int) error {
 // tlsServe handles client connections with TLS.
 func (server *Server) tlsServe(l net.Listener, tlsConfig *tls.Config, epoch int) error {
 	defer l.Close()
+	verifPoint("tlsServe.enter")
 
 	for {
 		conn, err := l.Accept()
 		if err != nil {
+			verifPoint("tlsServe.accept-error")
 			return err
 		}
 
@@ -243,14 +250,17 @@ func (server *Server) tlsServe(l net.Listener, tlsConfig *tls.Config, epoch int)
 
 // accept registers an accepted connection and starts to handle it.
 func (server *Server) accept(conn net.Conn, epoch int) {
+	verifPoint("conn.accepted")
 	handlerConn := newConnWith(conn, nil)
 	// The connection is registered before anything else is done with it, so
 	// that Stop closes it whatever state it is in; a connection accepted by
 	// a run that Stop has already ended is refused.
 	if !server.addConnOf(epoch, handlerConn) {
 		handlerConn.Close()
+		verifPoint("conn.refused")
 		return
 	}
+	verifPoint("conn.registered")
 	go server.receive(handlerConn)
 }
 
@@ -258,10 +268,13 @@ func (server *Server) accept(conn net.Conn, epoch int) {
 func (server *Server) receive(handlerConn *Conn) error {
 	defer func() {
 		handlerConn.Close()
+		verifPoint("conn.closed")
 	}()
 	defer func() {
 		server.RemoveConn(handlerConn)
+		verifPoint("conn.deregistered")
 	}()
+	verifPoint("conn.serving")
 
 	conn := handlerConn.Conn
 
